@@ -213,6 +213,14 @@ def cases(tier: str) -> List[dict]:
             for expr in e3:
                 for mode, bc in modes:
                     add(kind, [("v", DOM[a]), ("t", DOM[b]), ("u", DOM[c])], expr, mode, bc, "default", "alone")
+        # sweep variables named like the whitelisted helper functions: a bare name is the VARIABLE (the step's value)
+        for fn in ("abs", "min", "max", "round", "float", "int", "str", "bool"):
+            for expr in (fn, f"2.0 * {fn}", f"3.0 if {fn} else -1.0"):
+                for mode, bc in modes[:2]:
+                    add(kind, [(fn, DOM["seq3"])], expr, mode, bc, "default", "alone")
+        add(kind, [("max", DOM["seq2"]), ("min", DOM["seq3"])], "(max - min) / 2", "combinatorial", False, "default", "alone")
+        add(kind, [("abs", DOM["seq2"]), ("t", DOM["seq3"])], "abs + float(t)", "combinatorial", False, "default", "alone")
+        add(kind, [("int", DOM["seq3"]), ("t", DOM["seq3"])], "int * max(t, 2.0)", "by_position", False, "default", "alone")
         # precedence: computed beats node parameters and context for the swept parameter itself
         def both(c, k=KIND[kind]):
             c["node_params"][k["swept"]] = 9.0
